@@ -50,14 +50,21 @@ CxNames == << CxRep(<<195, 169>>, 128),                       \* 256 bytes of tw
               CxStr("xn--mnchen-3ya.example"), CxStr("xn--9999999999"), CxStr("xn--"), CxStr("xn--a"), CxStr("XN--ZZZZZZZZZZZZZZZZZZZZ"),
               CxStr("xn--99999999999999999999999999999999999999.xn--zzzzzzzzzzzzzzzz9"), CxStr("a.xn---.b"), CxStr("xn--0"),
               CxStr("[::1]"), CxStr("127.0.0.1"), CxStr("*.example.com"), CxStr("%00%ff%zz"), CxStr("..") , CxA(63) \o <<46>> \o CxA(64) \o <<46>> \o CxA(200) >>
-CxSniVals == [k \in 1..Len(CxNames) |-> [t |-> "SNI", tag |-> 0, names |-> <<[nt |-> 0, name |-> CxNames[k]]>>]]
+(* a valid prefix, then a multi-byte character cut short at the END of the name (1 of 2, 1-2 of 3, 1-3 of 4 bytes), or followed by ASCII *)
+CxTruncTails == << <<195>>, <<226>>, <<226, 130>>, <<240>>, <<240, 159>>, <<240, 159, 146>>, <<195, 40>>, <<226, 130, 40>>, <<244, 144>>, <<237, 160>> >>
+CxTruncNames == Concat([q \in 1..3 |-> [t \in 1..Len(CxTruncTails) |-> << <<>>, <<99>>, <<99, 97, 102>> >>[q] \o CxTruncTails[t]]])
+CxSniVals == [k \in 1..(Len(CxNames) + Len(CxTruncNames)) |->
+               [t |-> "SNI", tag |-> 0, names |-> <<[nt |-> 0, name |-> IF k <= Len(CxNames) THEN CxNames[k] ELSE CxTruncNames[k - Len(CxNames)]]>>]]
 CxAlpnVals == [k \in 1..7 |-> [t |-> "ALPN", tag |-> 16, protos |-> << <<CxRep(<<195, 169>>, 127)>>, <<CxA(253) \o <<195, 169>>>>,
                                                                     <<<<255>>, <<195>>, <<0>>>>,
                                                                     <<CxRep(<<195, 169>>, 100), CxA(1) \o CxRep(<<195, 169>>, 100)>>,
                                                                     <<CxRep(<<226, 130, 172>>, 80), CxA(1) \o CxRep(<<226, 130, 172>>, 80), CxA(2) \o CxRep(<<226, 130, 172>>, 80)>>,
                                                                     <<CxRep(<<240, 159, 146, 169>>, 60), CxA(1) \o CxRep(<<240, 159, 146, 169>>, 60)>>,
                                                                     <<CxA(2) \o CxRep(<<240, 159, 146, 169>>, 60), CxA(3) \o CxRep(<<240, 159, 146, 169>>, 60)>> >>[k]]]
-CxExtVals == CxSniVals \o CxAlpnVals
+CxAlpnTrunc == << [t |-> "ALPN", tag |-> 16, protos |-> CxTruncNames],
+                   [t |-> "ALPN", tag |-> 16, protos |-> <<<<99, 97, 102, 195>>>>], [t |-> "ALPN", tag |-> 16, protos |-> <<<<104, 50>>, <<97, 226, 130>>>>],
+                   [t |-> "ALPN", tag |-> 16, protos |-> <<<<240, 159, 146>>, <<104, 50>>>>] >>
+CxExtVals == CxSniVals \o CxAlpnVals \o CxAlpnTrunc
 
 CxHelloWith(extblock) == [t |-> "ClientHello", ver |-> 771, random |-> Fill(11, 32), sid |-> None, ciphers |-> <<4865, 47>>, comp |-> <<0>>,
                           ext |-> Some(extblock)]
